@@ -121,6 +121,11 @@ func (e *dbEngine) Execute(t *testing.T, plan *Plan, res *Result) {
 	cfg := plan.Sched.simCfg()
 	cfg.Trace = traceFile != ""
 	cfg.TraceAll = traceFile != ""
+	if plan.Profile == "corrupt" {
+		// A manual compaction over a damaged table can end in an endless
+		// re-pick loop; such a run is abandoned as inconclusive early.
+		cfg.MaxSteps = 600_000
+	}
 	h.sim = simrt.New(plan.Sched.Seed, cfg)
 	simrt.PanicHook = h.onPanic
 	h.r = simrt.NewRng(plan.Seed, 2000)
@@ -154,6 +159,12 @@ func (e *dbEngine) Execute(t *testing.T, plan *Plan, res *Result) {
 	}
 	// A run is non-trivial when background work actually overlapped the client.
 	res.Nontrivial = res.Stats["ev.flush"] > 0 && res.Stats["groups"] > 5
+	switch plan.Profile {
+	case "iofault":
+		res.Nontrivial = res.Nontrivial && res.Stats["faults_fired"] > 0
+	case "corrupt":
+		res.Nontrivial = res.Stats["rot.variants"] > 0 && res.Stats["groups"] > 5
+	}
 	res.CaseHash = fmt.Sprintf("%016x", caseHash(plan))
 	res.Sample = h.sample()
 }
